@@ -85,11 +85,11 @@ Proof. exact fid_reuse_refuted. Qed.
 (** what the source does; reverting dca25c9 / 79e8d00 (or registering after send) makes these obligations fail *)
 Lemma C10_source_shape :
   sendrecv_registers_before_send = true /\ sendrecv_withdraws = true /\
-  sendrecv_keeps_withdrawn = true /\ handleone_checks_found = true.
+  sendrecv_keeps_withdrawn = true /\ handleone_checks_found = true /\ recv_error_marks_dead = true.
 Proof. repeat split. Qed.
 
-(** [mark] := recv_error_marks_dead: whether the receiver remembers a connection error (false in the tree as it is;
-    true with fixes/C10-recv-error-not-remembered.patch).  Every theorem below holds for both values. *)
+(** [mark] := recv_error_marks_dead: the receiver remembers a connection error and no call is registered
+    afterwards (commit 91df8ef).  The invariant theorems below hold for both values of the flag. *)
 Definition mark : bool := recv_error_marks_dead.
 
 Definition reachable (n : nat) (m : mst) : Prop :=
@@ -176,9 +176,8 @@ Theorem C10_later_fail_after_recv_error : forall n m j m1 i,
 Proof. exact later_fail_after_recv_error. Qed.
 Print Assumptions C10_later_fail_after_recv_error.
 
-(** ... the tree as it is forgets it: a later call is sent and waits in recv on a connection the client has declared
-    broken (reproduced on the real code: it hangs; fixes/C10-recv-error-not-remembered.md).  C10_later_fail above
-    therefore covers, for the current tree, only a transport that keeps failing by itself. *)
+(** ... before commit 91df8ef it was forgotten: a later call was sent and waited in recv on a connection the client
+    had declared broken (on the real code it hung: fixes/C10-recv-error-not-remembered.md) *)
 Theorem C10_recv_error_forgotten_refuted :
   exists m, run true true true false (init 2) trace_forgotten = Some m /\
             get (thr m) 0 = TDone 1 0 RFail /\ get (thr m) 1 = TRecv 1 0 /\ dead m = false.
